@@ -7,6 +7,8 @@ import (
 	"sort"
 	"strings"
 
+	"simrt"
+
 	"github.com/go-openapi/analysis"
 	"github.com/go-openapi/spec"
 )
@@ -267,6 +269,9 @@ func invoke(an *analysis.Spec, doc *spec.Swagger, c Call) (answer string) {
 		if r := recover(); r != nil {
 			if ie, ok := r.(infraError); ok {
 				panic(ie)
+			}
+			if be, ok := r.(simrt.BudgetExceeded); ok {
+				panic(be)
 			}
 			if _, ok := r.(interface{ RuntimeError() }); ok {
 				answer = fmt.Sprintf("runtime-panic: %v", r)
